@@ -115,6 +115,9 @@ async def check_config(ctx, s, engine, req, faults, ref, cfg, sdl, cap, rng, arg
                    "distinct_release_orders": len(orders), "one_order": list(next(iter(orders)))[:12]}, limit=3)
 
 
+supports_hetero = smodel.supports_hetero
+
+
 def wide_shape(s, req):
     """A root field whose type is a (single-level) list of composites and whose direct sub-selection has a list-typed field."""
     root = s.types[s.roots()[req.op.kind]]
@@ -142,6 +145,14 @@ async def run_case(ctx, rng, index):
     so = smodel.GenOpts(n_objects=(2, 3), n_interfaces=(0, 1), n_unions=(0, 1), fields=(2, 3), p_gate=0.25,
                         p_mutation=0.3, p_nonnull=rng.choice([0.2, 0.5]))
     s = smodel.gen_schema(rng, so)
+    if index % 2 == 0:
+        # every second case: a schema in which some field returns a LIST of an interface that has >= 2 implementers and a
+        # composite field (merged field nodes can then differ from item to item, request r == 2)
+        so.n_interfaces = (1, 2)
+        for _try in range(40):
+            if supports_hetero(s):
+                break
+            s = smodel.gen_schema(rng, so)
     if rng.random() < 0.5:
         for t in s.objects():
             for f in t.fields.values():
@@ -159,6 +170,13 @@ async def run_case(ctx, rng, index):
                 # merged sub-selections that differ per list item (type conditions) under every schedule
                 req = X.gen_request(rng, s, docgen.DocOpts(max_fields=10, max_depth=4, p_hetero=1.0, p_inline=0.3, p_repeat_outer=0.6,
                                                            op_kinds=("query",)))
+                for _try in range(25):
+                    if getattr(req.doc, "hetero", 0) or not supports_hetero(s):
+                        break
+                    req = X.gen_request(rng, s, docgen.DocOpts(max_fields=rng.choice([10, 14]), max_depth=4, p_hetero=1.0, p_inline=0.3,
+                                                               p_repeat_outer=0.6, op_kinds=("query",)))
+                if getattr(req.doc, "hetero", 0):
+                    ctx.stats.inc("requests_with_per_item_merged_nodes")
             else:
                 req = X.gen_request(rng, s, docgen.DocOpts(max_fields=rng.choice([3, 5, 7]), max_depth=3,
                                                            op_kinds=("query", "mutation")))
@@ -172,9 +190,9 @@ async def run_case(ctx, rng, index):
                 else:
                     wide = False
             if wide:
-                # size boundary: root-level lists of 128 / 130 objects (each with its own sub-selection, nested lists
+                # size boundary: root-level lists of 130 / 300 objects (each with its own sub-selection, nested lists
                 # included); few schedules, the point is termination and equality with the reference
-                req.world_opts = {"p_long_obj": 1.0, "long_obj_sizes": (128, 130)}
+                req.world_opts = {"p_long_obj": 1.0, "long_obj_sizes": (130, 300)}
             w0, _ = X.make_worlds(s, req)
             try:
                 ref0 = X.run_reference(s, req, w0)
